@@ -18,7 +18,7 @@ from kernelvc import corpus as C
 
 RTOL = 1e-9
 MAX_COST = 3_000_000  # scalar sub-expression evaluations per kernel (about 30 s)
-CELLS = ("interval", "triangle", "tetrahedron", "quadrilateral", "hexahedron", "prism")
+CELLS = ("interval", "triangle", "tetrahedron", "quadrilateral", "hexahedron", "prism", "pyramid")
 R = None
 
 
@@ -104,7 +104,7 @@ def _wanted(prop, kn):
     if prop == "C01":
         return it == "cell"
     if prop == "C02":
-        return it in ("exterior_facet", "interior_facet", "vertex")
+        return it in ("exterior_facet", "interior_facet", "vertex", "ridge")
     if prop == "C05":
         return bool(kn.fd.reduced_coefficients or kn.fd.original_form.constants())
     if prop == "C09":
@@ -184,7 +184,7 @@ def _retry(compare):
 def _kernel(kn, fd2_cache, seed, run_kernel, ufl):
     fd, itg, options = kn.fd, kn.itg, kn.options
     it = itg.integral_type
-    if it not in ("cell", "exterior_facet", "interior_facet", "vertex"):
+    if it not in ("cell", "exterior_facet", "interior_facet", "vertex", "ridge"):
         raise R.Unsupported(f"integral type {it}")
     if str(options["part"]) != "full":
         raise R.Unsupported("diagonal kernels (compared with the full kernel by E3 metamorphic)")
@@ -215,8 +215,10 @@ def _kernel(kn, fd2_cache, seed, run_kernel, ufl):
     rng = np.random.default_rng(seed)
     tdim = dom.ufl_cell().topological_dimension
     nfac = C.cell_entities(cellname, tdim - 1)
-    if cellname == "prism" and it in ("exterior_facet", "interior_facet"):
-        raise R.Unsupported("facets of a prism (two facet types)")
+    if cellname in ("prism", "pyramid") and it in ("exterior_facet", "interior_facet"):
+        raise R.Unsupported("facets of a prism/pyramid (two facet types)")
+    if it == "ridge" and tdim != 3:
+        raise R.Unsupported("ridge integrals of 2D cells")
     degree1 = (cel._sub_element if hasattr(cel, "_sub_element") else cel).embedded_superdegree == 1
     if it == "cell":
         configs = [(None, None, False), (None, None, True)]
@@ -224,6 +226,8 @@ def _kernel(kn, fd2_cache, seed, run_kernel, ufl):
         configs = [(f, None, f % 2 == 1) for f in range(nfac)]
     elif it == "vertex":
         configs = [(v, None, v % 2 == 1) for v in range(C.cell_entities(cellname, 0))]
+    elif it == "ridge":
+        configs = [(e, None, e % 2 == 1) for e in range(C.cell_entities(cellname, tdim - 2))]
     else:
         if not degree1:
             raise R.Unsupported("interior facets of higher-order geometry")
@@ -256,7 +260,7 @@ def _kernel(kn, fd2_cache, seed, run_kernel, ufl):
                     fn[c] = R.FEFunction(c.ufl_element(), cl, d)
                 for a, d in zip(args, adofs[s]):
                     fn[a] = R.FEFunction(a.ufl_element(), cl, d)
-                sides[tag if it == "interior_facet" else None] = R.Side(cl, (f0, f1)[s] if it != "vertex" else None, fn)
+                sides[tag if it == "interior_facet" else None] = R.Side(cl, (f0, f1)[s] if it in ("exterior_facet", "interior_facet") else None, fn)
             constants = {k: (v[0] if k.ufl_shape == () else R._nest(v, k.ufl_shape)) for k, v in zip(consts, cvals)}
             evaluator = R.Evaluator(sides, constants, cm)
             ref = 0.0
@@ -289,6 +293,11 @@ def _kernel(kn, fd2_cache, seed, run_kernel, ufl):
                     pts, W = np.array([cell0.refgeom[f0]]), np.ones(1)
                     per_side = [pts]
                     scale = [1.0]
+                elif it == "ridge":
+                    Xr, W = _quadrature("interval", md, els)
+                    pts = cell0.ridge_points(f0, Xr)
+                    per_side = [pts]
+                    scale = [cell0.ridge_scale(f0, X) for X in pts]
                 else:
                     fname = {1: "point", 2: "interval", 3: "triangle" if cell0.simplex else "quadrilateral"}[tdim]
                     Xf, W = _quadrature(fname, md, els)
